@@ -159,6 +159,11 @@ PureTp(c) == ("main" :> (IF c.d = "str" THEN MatchProgs[c.p] ELSE PureProgs[c.p]
              @@ ("t2" :> <<PrintS(Cond(Bin("matches", XV, LS(<<47, 90, 47, 105>>)), LS(<<121>>), LS(<<110>>)))>>)
 PureCtx(c) == IF c.d = "str" THEN ("x" :> VS(IF c.p = "twotp" THEN <<122>> ELSE <<113>>)) ELSE ("x" :> ListData[c.d])
 
+\* wide maps (63 .. 70 keys w01 .. w70): walked by loops and by keys; no permutations here -- the runs repeat, insert in
+\* reverse, and (in the replay) edit the map in place between two renders
+WideMap(n) == VM([i \in 1..n |-> K(<<119, 48 + (i \div 10), 48 + (i % 10)>>)], [i \in 1..n |-> VI(i)])
+WideCases == {[fam |-> "wide", n |-> n, p |-> pn] : n \in {63, 64, 65, 70}, pn \in {"forkv", "forv", "keysjoin"}}
+
 Runs(tp) == <<[label |-> "repeat", tp |-> tp, xcalls |-> [id \in {} |-> 0], repeat |-> 24],
               [label |-> "reversed-insertion", tp |-> tp, xcalls |-> [id \in {} |-> 0], repeat |-> 8, rev |-> TRUE]>>
 NoExpect == [ok |-> TRUE, anyoutcome |-> TRUE, out |-> <<>>, noout |-> TRUE, err |-> "", calls |-> [id \in {} |-> 0]]
@@ -168,6 +173,10 @@ CaseOf(c) ==
            [prop |-> "C03", key |-> ToJson(c), entry |-> "main", rel |-> "same",
             tags |-> {"fam:map", "p:" \o c.p, "m:" \o c.m} \cup (IF Sensitive(c) \/ LitSensitive(c) THEN {"order-sensitive"} ELSE {"order-insensitive"}),
             ctx |-> ("m" :> Maps[c.m]) @@ ("t" :> Maps.msi3), runs |-> Runs(("main" :> Source(Programs[c.p], LMin))), expect |-> NoExpect]
+      [] c.fam = "wide" ->
+           [prop |-> "C03", key |-> ToJson(c), entry |-> "main", rel |-> "same",
+            tags |-> {"fam:wide", "p:" \o c.p, "order-sensitive"},
+            ctx |-> ("m" :> WideMap(c.n)) @@ ("t" :> Maps.msi3), runs |-> Runs(("main" :> Source(Programs[c.p], LMin))), expect |-> NoExpect]
       [] c.fam = "date" ->
            [prop |-> "C03", key |-> ToJson(c), entry |-> "main", rel |-> "same",
             tags |-> {"fam:date", "len:" \o ToString(Len(c.f))},
@@ -212,11 +221,12 @@ CaseOf(c) ==
             runs |-> Runs(("main" :> Source(AddrProg(c.prog), LMin))),
             expect |-> NoExpect]
 
-Parts == {"map", "date", "addr", "dateint", "incwith", "pure"}
+Parts == {"map", "date", "addr", "dateint", "incwith", "pure", "wide"}
 Init == cs \in {[part |-> p] : p \in Parts}
 Next == "part" \in DOMAIN cs /\ cs' \in (CASE cs.part = "map" -> {c \in MapCases : Applicable(c.p, c.m)}
                                             [] cs.part = "date" -> DateCases [] cs.part = "addr" -> AddrCases
                                             [] cs.part = "dateint" -> DateIntCases [] cs.part = "incwith" -> IncWithCases
+                                            [] cs.part = "wide" -> WideCases
                                             [] cs.part = "pure" -> PureListCases \cup PureMatchCases)
 Spec == Init /\ [][Next]_cs
 IsCase == "fam" \in DOMAIN cs
